@@ -131,9 +131,18 @@ func VerifIPFIXCacheRoundTrip() {
 	m := GetCache("cache.file") // fresh
 	id, addr, _ := verifKeyInShard(m, verifK)
 	id2, addr2, _ := verifKeyInShard(m, verifK)
+	// the template shapes decoding produces: a plain template (FieldCount = number of fields) or
+	// an options template (FieldCount = scope + option fields, scope fields kept separately)
 	t := TemplateRecord{TemplateID: id, FieldCount: 1, FieldSpecifiers: []TemplateFieldSpecifier{{ElementID: verifNondetU16(), Length: verifNondetU16(), EnterpriseNo: verifNondetU32()}}}
+	if verifCase(2) == 1 {
+		t.FieldCount, t.ScopeFieldCount = 2, 1
+		t.ScopeFieldSpecifiers = []TemplateFieldSpecifier{{ElementID: verifNondetU16(), Length: verifNondetU16(), EnterpriseNo: verifNondetU32()}}
+	}
 	m.insert(id, addr, t)
 	before, okb := m.retrieve(id2, addr2)
+	// structural precondition of the JSON model: nothing of the saved structure is hidden
+	// from encoding/json (unexported or json:"-" fields would silently not be saved)
+	verifAssert(verifJSONTransparent(memCacheDisk{}), "every data-carrying field of the cache file structure is saved by encoding/json")
 	err := m.Dump("cache.file")
 	verifAssert(err == nil, "Dump succeeds when the file can be written")
 	verifAssert(verifSavedName == "cache.file", "Dump writes the file it was asked to write")
@@ -144,6 +153,10 @@ func VerifIPFIXCacheRoundTrip() {
 	if oka {
 		verifAssert(verifAll(after.TemplateID == before.TemplateID, after.FieldCount == before.FieldCount, len(after.FieldSpecifiers) == len(before.FieldSpecifiers)), "same template after the restart")
 		verifAssert(after.FieldSpecifiers[0] == before.FieldSpecifiers[0], "same field specifiers after the restart")
+		verifAssert(verifAll(after.ScopeFieldCount == before.ScopeFieldCount, len(after.ScopeFieldSpecifiers) == len(before.ScopeFieldSpecifiers)), "same scope fields after the restart")
+		if len(after.ScopeFieldSpecifiers) == 1 {
+			verifAssert(after.ScopeFieldSpecifiers[0] == before.ScopeFieldSpecifiers[0], "same scope field specifiers after the restart")
+		}
 	}
 	verifReach("end")
 }
